@@ -38,6 +38,9 @@ RULES = ["nz", "eo", "eo-inherit", "eo-style"]
 T1 = "translate(8,-5) rotate(12)"
 T2 = "scale(.8) translate(10,10)"
 T3 = "rotate(-10 50 50) translate(4,3)"
+# a child transform that is far from commuting with T1 (swapping the two moves the region by several units)
+T2S = "translate(30,-8) scale(.6,.9) rotate(25)"
+T1S = "scale(1.3,.8) translate(-6,14)"
 
 TARGETS = {
     "shape": ('<rect x="8" y="8" width="84" height="84" fill="red"{c}{t}/>', ""),
@@ -61,7 +64,7 @@ def clip_children(children, inherit_holder):
         elif rule == "eo-inherit":
             inherit = True
         if tchild:
-            a += f' transform="{T2}"'
+            a += f' transform="{T2 if tchild is True else tchild}"'
         out += CLIPSHAPES[shape].format(a=a)
     inherit_holder.append(inherit)
     return out
@@ -74,7 +77,7 @@ def document(children, cp_t, target, target_t, nested, ancestors):
     if hold[0]:
         cp_attrs += ' clip-rule="evenodd"'
     if cp_t:
-        cp_attrs += f' transform="{T1}"'
+        cp_attrs += f' transform="{T1 if cp_t is True else cp_t}"'
     defs = ""
     if nested:
         # the clipPath referenced by the clipPath: a plain region, or one where the fill rule matters and which
@@ -85,6 +88,9 @@ def document(children, cp_t, target, target_t, nested, ancestors):
             "star-eo": '<clipPath id="c2" clip-rule="evenodd"><polygon points="50,5 76,90 8,36 92,36 24,90"/></clipPath>',
             "disjoint": '<clipPath id="c2"><rect x="80" y="75" width="15" height="20"/></clipPath>',
             "inner-empty": '<clipPath id="c2"><rect x="30" y="30" width="0" height="20"/></clipPath>',
+            # chains of three and four clipPaths (every link removes part of the region the others keep)
+            "chain3": '<clipPath id="c3"><rect x="30" y="10" width="35" height="80"/></clipPath><clipPath id="c2" clip-path="url(#c3)"><ellipse cx="52" cy="48" rx="38" ry="24"/></clipPath>',
+            "chain4": '<clipPath id="c4"><rect x="0" y="36" width="100" height="26"/></clipPath><clipPath id="c3" clip-path="url(#c4)"><rect x="30" y="10" width="35" height="80"/></clipPath><clipPath id="c2" clip-path="url(#c3)"><ellipse cx="52" cy="48" rx="38" ry="24"/></clipPath>',
             "ring-childeo": '<clipPath id="c2"><path clip-rule="evenodd" d="M10,10 H90 V90 H10 Z M40,40 H60 V60 H40 Z"/><rect x="44" y="44" width="4" height="4"/></clipPath>',
         }[nested]
         defs += inner
@@ -123,6 +129,12 @@ def all_cases(tier):
     for (s, r) in [(s, r) for s in ("rect", "star", "nested") for r in RULES]:
         for nested, cp_t, target, anc in itertools.product(("star", "star-eo", "ring-childeo"), (False, True), ("shape", "group") if tier == "quick" else TARGETS, (0, 1)):
             yield ([(s, r, False)], cp_t, target, False, nested, anc)
+    # chains of three / four clipPaths; clipPath and child transforms that do not commute (round 7)
+    for (s_, r), nested, cp_t, target, anc in itertools.product((("rect", "nz"), ("star", "eo"), ("circle", "nz")), ("chain3", "chain4"), (False, True), ("shape", "group", "use"), (0, 1)):
+        yield ([(s_, r, False)], cp_t, target, False, nested, anc)
+    for (s_, r), (cp_t, tchild), target, anc in itertools.product((("rect", "nz"), ("star", "eo")), ((True, T2S), (T1S, True), (T1S, T2S)), ("shape", "group", "use"), (0, 1)):
+        yield ([(s_, r, tchild)], cp_t, target, False, False, anc)
+        yield ([(s_, r, tchild), ("circle", "nz", False)], cp_t, target, False, False, anc)
     # targets whose own transform is close to the identity (every entry within 0.1 of it)
     for s_, r in (("rect", "nz"), ("star", "eo"), ("circle", "nz")):
         for tt, target, cp_t, anc in itertools.product(("scale(1.06)", "rotate(4)", "matrix(1.03 .02 -.04 .97 .05 -.08)"), ("shape", "group", "use"), (False, True), (0, 1)):
